@@ -899,6 +899,7 @@ class _IsinstanceToMatch(ast.NodeTransformer):
                 and not self._arm(s.test.operand, s.body, None)[1].guard  # type: ignore[index]
             ):
                 rest = self._positive(stmts[i + 1 :])
+                self._made_positive = True
                 new = ast.copy_location(ast.If(test=s.test.operand, body=rest, orelse=s.body), s)
                 return stmts[:i] + [new]
         return stmts
@@ -929,6 +930,10 @@ class _IsinstanceToMatch(ast.NodeTransformer):
                         j += 1
                     if orelse:
                         arms.append(ast.match_case(pattern=ast.MatchAs(pattern=None, name=None), guard=None, body=orelse))
+                    if getattr(self, "_made_positive", False):
+                        # arms built from a re-arranged guard clause hold statements this pass has not seen yet
+                        for a in arms:
+                            a.body = self._block(a.body)
                     m = ast.copy_location(ast.Match(subject=subject, cases=arms), s)
                     self.changed += 1
                     out.append(m)
